@@ -10,10 +10,10 @@ import json
 import gffutils
 
 UNIVERSE = {
-    "gff3": dict(ids=["g1", "m1", "e1", "p1", "exon_1", "exon_2", "g2", "m2", "e9", "m9", "e1_1", "p2", "no-such-id"],
+    "gff3": dict(ids=["g1", "m1", "e1", "p1", "exon_1", "exon_2", "g2", "m9", "e1_1", "no-such-id"],
                  types=["gene", "mRNA", "exon", "part", "ncRNA", "no-such-type"],
                  seqids=["c1", "c2", "c9"], tx=["m1", "m9"], gene="gene", tr="mRNA"),
-    "gtf": dict(ids=["G1", "T1", "T2", "exon_1", "exon_2", "exon_3", "exon_4", "CDS_1", "CDS_2", "T1_1", "G1_1", "no-such-id"],
+    "gtf": dict(ids=["G1", "T1", "T2", "exon_1", "exon_3", "exon_4", "CDS_1", "CDS_2", "T1_1", "no-such-id"],
                 types=["gene", "transcript", "exon", "CDS", "no-such-type"],
                 seqids=["c1", "c9"], tx=["T1", "T2"], gene="gene", tr="transcript"),
 }
@@ -35,7 +35,8 @@ def battery(db, family, light=False):
     u = UNIVERSE[family]
     out = {}
     types = u["types"]
-    ids = u["ids"] if not light else u["ids"][::2] + u["ids"][-1:]
+    ids = u["ids"] if not light else u["ids"][::3] + u["ids"][-1:]
+    few = ids if light else u["ids"][::2] + u["ids"][-1:]
     out["count"] = [_call(lambda t=t: db.count_features_of_type(t)) for t in [None] + types]
     out["of_type"] = [_call(lambda t=t: _ids(db.features_of_type(t))) for t in types]
     out["of_types"] = _call(lambda: _ids(db.features_of_type(tuple(types[:3]), order_by="start")))
@@ -45,18 +46,20 @@ def battery(db, family, light=False):
     out["seqids"] = _call(lambda: sorted(db.seqids()))
     out["lookup"] = [_call(lambda i=i: str(db[i])) for i in ids]
     out["children"] = [_call(lambda i=i: sorted(_ids(db.children(i)))) for i in ids]
-    out["children_l1_exon"] = [_call(lambda i=i: sorted(_ids(db.children(i, level=1, featuretype="exon")))) for i in ids]
+    out["children_l1_exon"] = [_call(lambda i=i: sorted(_ids(db.children(i, level=1, featuretype="exon")))) for i in few]
     out["parents"] = [_call(lambda i=i: sorted(_ids(db.parents(i)))) for i in ids]
-    out["parents_l2"] = [_call(lambda i=i: sorted(_ids(db.parents(i, level=2, featuretype=u["gene"])))) for i in ids]
+    out["parents_l2"] = [_call(lambda i=i: sorted(_ids(db.parents(i, level=2, featuretype=u["gene"])))) for i in few]
     out["region"] = [_call(lambda s=s: sorted(_ids(db.region(seqid=s)))) for s in u["seqids"]]
     out["region_str"] = _call(lambda: sorted(_ids(db.region("c1:1-60"))))
     out["region_within"] = _call(lambda: sorted(_ids(db.region(seqid="c1", start=1, end=100, completely_within=True, featuretype="exon"))))
     out["region_limit"] = _call(lambda: sorted(_ids(db.all_features(limit=("c2", 1, 1000)))))
     out["dialect"] = _call(lambda: json.dumps(db.dialect, sort_keys=True))
-    if not light:
+    if True:
         out["by_parent"] = _call(lambda: [[f.id for f in grp] for grp in db.iter_by_parent_childs(featuretype=u["gene"], order_by="start")])
-        out["children_bp"] = [_call(lambda i=i: db.children_bp(i, child_featuretype="exon", merge=True)) for i in u["tx"]]
-        out["bed12"] = [_call(lambda i=i: db.bed12(i)) for i in u["tx"]]
+        # merge=True hands out a fresh '<featuretype>_<n>' id from the object's counters (legitimately: such ids must not
+        # collide with stored keys), which shifts the numbering of a LATER update; between operations only merge=False is asked
+        out["children_bp"] = [_call(lambda i=i: db.children_bp(i, child_featuretype="exon", merge=not light)) for i in (u["tx"][:1] if light else u["tx"])]
+        out["bed12"] = [_call(lambda i=i: db.bed12(i)) for i in (u["tx"][:1] if light else u["tx"])]
         out["introns"] = _call(lambda: sorted(str(f) for f in db.create_introns(grandparent_featuretype=u["gene"])))
         out["introns_parent"] = _call(lambda: sorted(str(f) for f in db.create_introns(parent_featuretype=u["tr"], grandparent_featuretype=None)))
         out["n_relations"] = _call(lambda: db.execute("SELECT count(*) FROM relations").fetchone()[0])
